@@ -73,7 +73,7 @@ def slice_cases(rng, _n):
 
 
 def run(ck):
-    verdicts.check(ck, "C19", ["AsModel.Theorems.C19"], t2_parts=("nodes",))
+    verdicts.check(ck, "C19", ["AsModel.Theorems.C19", "AsModel.Theorems.C14NoJoin"], t2_parts=("nodes",))
     label_tie(ck)
     cases = t3.run_corpus(ck, "c19", 0, per_bin=20, positions=slice_cases)
     dist = {}
